@@ -156,7 +156,10 @@ def main(argv=None):
         if len(samples_pool) < 200:
             samples_pool.extend(res['samples'])
         unit_obs[idx] = (res['obs'], res['n'], sorted(set(v['sig'] for v in res['viol'])))
+        if res.get('notes') and len(notes) < 20000:
+            notes.extend(res['notes'])
 
+    notes = []
     timeouts = []
     deadline = getattr(mod, 'UNIT_DEADLINE', {'quick': 300.0, 'thorough': 1800.0})[tier]
     pool = core.Pool(modname, tier, unit_deadline=deadline)
@@ -269,6 +272,7 @@ def main(argv=None):
             'fixed_findings_listed': fixed,
             'determinism': determinism,
             'extra': dict(extra),
+            'extra_info': (mod.evidence_extra(notes) if hasattr(mod, 'evidence_extra') else {}),
             'repo': core.REPO,
         },
         'assumptions': list(mod.ASSUMPTIONS),
